@@ -68,6 +68,7 @@ func NewWithOptions(opts *Options) *OrefaFS {
 
 	rootNode := &node{
 		mode:  fs.ModeDir | 0o755,
+		dir:   true,
 		mtime: time.Now().UnixNano(),
 		uid:   0,
 		gid:   0,
